@@ -67,12 +67,13 @@ def _instants(n: int, interval_s: float, margin_s: float, grid: int, cycles: int
     return sorted(out)
 
 
-def _runners(n: int, with_history: bool):
+def _runners(n: int, with_history: bool, ties: bool = False):
     from pynenc.orchestrator.atomic_service import ActiveRunnerInfo
 
     rs = []
     for k in range(n):
-        t = datetime.fromtimestamp(1000.0 + k, tz=UTC)
+        # ties: runners registered in one batch share their creation time (the list order is their only order)
+        t = datetime.fromtimestamp(1000.0 + (k // 2 if ties else k), tz=UTC)
         kw = {}
         if with_history:
             kw = dict(
@@ -146,8 +147,8 @@ def _pure_unit(item) -> Partial:
     for margin_min in (item[4] if len(item) > 4 else _margins(slot_s)):
         margin_s = margin_min * 60
         for offset in OFFSETS:
-            for hist in (False, True) if offset == 0.0 else (False,):
-                runners = _runners(n, hist)
+            for hist in (False, True, "ties") if offset == 0.0 else (False,):
+                runners = _runners(n, hist is True, ties=hist == "ties")
                 base = offset - (offset % interval_s) if offset else 0.0
                 cfg = dict(n=n, interval_min=interval_min, margin_min=margin_min, offset=offset,
                            history=hist)
@@ -175,7 +176,8 @@ def _pure_unit(item) -> Partial:
 
 def _orch_unit(item) -> Partial:
     """Same oracle through should_run_atomic_service of a real orchestrator (virtual clock)."""
-    backend, n, interval_min, margin_min = item
+    backend, n, interval_min, margin_min = item[:4]
+    batch = len(item) > 4 and item[4]
     from pynenc.runner.runner_context import RunnerContext
 
     p = Partial()
@@ -188,12 +190,18 @@ def _orch_unit(item) -> Partial:
         runner_considered_dead_after_minutes=1e6,
     )
     ctxs = [RunnerContext("ThreadRunner", f"r{k}") for k in range(n)]
-    for c in ctxs:  # creation order = position
-        app.orchestrator.register_runner_heartbeats([c.runner_id], can_run_atomic_service=True)
+    if batch:
+        # one heartbeat report for all of them (what a parent runner does for its children): one creation time
+        env.CLOCK.frozen = True
+        app.orchestrator.register_runner_heartbeats([c.runner_id for c in ctxs], can_run_atomic_service=True)
+        env.CLOCK.frozen = False
+    else:
+        for c in ctxs:  # creation order = position
+            app.orchestrator.register_runner_heartbeats([c.runner_id], can_run_atomic_service=True)
     interval_s = interval_min * 60
     margin_s = margin_min * 60
     base = env.CLOCK.now - (env.CLOCK.now % interval_s) + interval_s
-    cfg = dict(backend=backend, n=n, interval_min=interval_min, margin_min=margin_min)
+    cfg = dict(backend=backend, n=n, interval_min=interval_min, margin_min=margin_min, **({"batch_registered": True} if batch else {}))
     series = []
     cycles = 2
     for t in _instants(n, interval_s, margin_s, 120, cycles, base):
@@ -234,6 +242,7 @@ def run(ctx: Ctx) -> None:
         for n in ((1, 2, 3, 5) if ctx.thorough else (1, 2, 3))
         for i, m in ((1.0, 0.0), (1.0, 0.1), (5.0, 1.0), (1.0, 1.0))
     ]
+    oitems += [(b, n, 1.0, 0.1, True) for b in env.BACKENDS for n in (2, 3)]
     for part in par.pmap(_orch_unit, oitems):
         ctx.merge(part)
     ctx.rule = (
@@ -255,7 +264,7 @@ def replay(payload: dict) -> bool:
     if r.get("kind") != "pure":
         return False
     n = r["n"]
-    runners = _runners(n, r.get("history", False))
+    runners = _runners(n, r.get("history", False) is True, ties=r.get("history") == "ties")
     p = Partial()
     interval_s = r["interval_min"] * 60
     margin_s = r["margin_min"] * 60
